@@ -98,6 +98,8 @@ func ruleR29(c *Ctx) {
 				return "", "store to " + text + " whose target cannot be resolved to a local"
 			case !localTo(v) && v.Parent() == m.Pkg.Scope():
 				return "", "store to package-level variable " + v.Name()
+			case !localTo(v) && !through && c.runsWithinParent(u) && u.Parent != nil && u.Parent.Body != nil && v.Pos() >= u.Parent.Body.Pos() && v.Pos() <= u.Parent.Body.End():
+				return "local value " + v.Name() + " of the enclosing function, assigned by a closure that only runs within it", ""
 			case !localTo(v) && through && c.runsWithinParent(u) && alwaysFresh(m, declBody(u), v, 0):
 				return "memory allocated by the enclosing call, written by a closure that runs within it (deferred / called on the spot): " + v.Name(), ""
 			case !localTo(v):
@@ -358,7 +360,37 @@ func (c *Ctx) runsWithinParent(u *FuncUnit) bool {
 		}
 		return true
 	})
-	return ok
+	if ok {
+		return true
+	}
+	// push := func(…) {…} bound once to a local that is only ever called
+	var bound *types.Var
+	for v, lu := range c.m.LitOfVar {
+		if lu == u {
+			bound = v
+		}
+	}
+	if bound == nil {
+		return false
+	}
+	onlyCalled, called := true, false
+	calledIdents := map[*ast.Ident]bool{}
+	ast.Inspect(u.Parent.Body, func(n ast.Node) bool {
+		if call, isCall := n.(*ast.CallExpr); isCall {
+			if id, isId := ast.Unparen(call.Fun).(*ast.Ident); isId && c.m.Info.ObjectOf(id) == bound {
+				calledIdents[id] = true
+				called = true
+			}
+		}
+		return true
+	})
+	ast.Inspect(u.Parent.Body, func(n ast.Node) bool {
+		if id, isId := n.(*ast.Ident); isId && c.m.Info.Uses[id] == bound && !calledIdents[id] {
+			onlyCalled = false
+		}
+		return true
+	})
+	return called && onlyCalled
 }
 
 // alwaysFresh: every value the local v is ever given (anywhere in the declaration) is memory the
